@@ -13,6 +13,7 @@ From JV Require Import Lib.Base Model.Graph Model.LinkOrder Spec.GraphSpec.
 Definition base_eqb (a b : base) : bool :=
   match a, b with
   | BObj x, BObj y | BAttr x, BAttr y => str_eqb x y
+  | BLit m, BLit n => N.eqb m n
   | BNs _, BNs _ => true
   | _, _ => false
   end.
@@ -45,12 +46,11 @@ Definition spec_units (d : decl) : list (str * option str) :=      (* (unit, the
 Definition all_units (ds : list decl) : list (str * option str) := flat_map spec_units ds.
 Definition is_unit (us : list (str * option str)) (k : str) : bool := mem_str k (map fst us).
 
-(* source key: a unit (the whole object) or unit.attribute *)
-Definition src_base (us : list (str * option str)) (k : str) : option base :=
-  if is_unit us k then Some (BObj k)
-  else if is_unit us (key_parent k) then Some (BAttr (key_parent k))
+(* source key: a unit (the whole object) or unit.attribute -> (the unit that must exist, the value handed on) *)
+Definition src_base (us : list (str * option str)) (k : str) : option (str * base) :=
+  if is_unit us k then Some (k, BObj k)
+  else if is_unit us (key_parent k) then Some (key_parent k, attr_value (key_parent k) (key_leaf k))
   else None.
-Definition base_unit (b : base) : str := match b with BObj u | BAttr u => u | BNs _ => [] end.
 
 (* target key: unit.param (class group) or unit.init_args.param (class-typed value) *)
 Definition tgt_unit (us : list (str * option str)) (tk : str) : option str :=
@@ -66,7 +66,8 @@ Fixpoint opt_all {A} (l : list (option A)) : option (list A) :=
   | Some x :: l' => match opt_all l' with Some r => Some (x :: r) | None => None end
   end.
 
-Record slink := { sl_id : nat; sl_srcs : list base; sl_tgt : str; sl_fn : bool }.
+Record slink := { sl_id : nat; sl_srcs : list (str * base); sl_tgt : str; sl_fn : bool }.
+Definition sl_vals (l : slink) : list base := map snd (sl_srcs l).
 
 Definition spec_link (us : list (str * option str)) (l : link) : option slink :=
   match opt_all (map (src_base us) (l_srcs l)), tgt_unit us (l_target l) with
@@ -78,7 +79,7 @@ Definition containment (us : list (str * option str)) : list edge :=
   flat_map (fun u => match snd u with Some p => [(fst u, p)] | None => [] end) us.
 
 Definition dep_edges (us : list (str * option str)) (sls : list slink) : list edge :=
-  flat_map (fun l => map (fun b => (base_unit b, sl_tgt l)) (sl_srcs l)) sls ++ containment us.
+  flat_map (fun l => map (fun b => (fst b, sl_tgt l)) (sl_srcs l)) sls ++ containment us.
 
 Definition has_cycle (es : list edge) : bool := existsb (fun e => reach_b es (snd e) (fst e)) es.
 
@@ -113,18 +114,18 @@ Definition lt_opt (a b : option nat) : bool :=
   match a, b with Some i, Some j => Nat.ltb i j | _, _ => false end.
 
 Definition expected (l : slink) : value :=
-  if sl_fn l then VFn (sl_id l) (sl_srcs l) else VBase (hd (BNs []) (sl_srcs l)).
+  if sl_fn l then VFn (sl_id l) (sl_vals l) else VBase (hd (BNs []) (sl_vals l)).
 
 Definition link_ok (log : list event) (l : slink) : bool :=
   (* the parameter receives the source object / attribute (through the compute function) *)
   existsb (arg_eqb (sl_id l, expected l)) (args_of (sl_tgt l) log)
   (* every source is constructed before the object fed from it *)
-  && forallb (fun b => lt_opt (pos_new (base_unit b) log) (pos_new (sl_tgt l) log)) (sl_srcs l)
+  && forallb (fun b => lt_opt (pos_new (fst b) log) (pos_new (sl_tgt l) log)) (sl_srcs l)
   (* the compute function runs exactly once, on the sources, after they exist and before the target is built *)
   && (if sl_fn l
       then Nat.eqb (length (filter (fun c => Nat.eqb (fst c) (sl_id l)) (calls log))) 1
-           && existsb (fun c => Nat.eqb (fst c) (sl_id l) && list_eqb base_eqb (snd c) (sl_srcs l)) (calls log)
-           && forallb (fun b => lt_opt (pos_new (base_unit b) log) (pos_call (sl_id l) log)) (sl_srcs l)
+           && existsb (fun c => Nat.eqb (fst c) (sl_id l) && list_eqb base_eqb (snd c) (sl_vals l)) (calls log)
+           && forallb (fun b => lt_opt (pos_new (fst b) log) (pos_call (sl_id l) log)) (sl_srcs l)
            && lt_opt (pos_call (sl_id l) log) (pos_new (sl_tgt l) log)
       else negb (existsb (fun c => Nat.eqb (fst c) (sl_id l)) (calls log))).
 
